@@ -9,6 +9,7 @@ import (
 	"encoding/json"
 	"errors"
 	"fmt"
+	"io"
 	"strings"
 	"unicode/utf8"
 
@@ -23,10 +24,13 @@ var alpha = []byte{'a', '\n', 'b'}
 // Input is one execution: the chunks are written in order; the underlying writer accepts Budget
 // bytes in total and then stops short with an error (Budget < 0: never fails).
 type Input struct {
-	Prefix  string        `json:"prefix"`
-	Chunks  []string      `json:"chunks"`
-	Budget  int           `json:"budget"`
-	Hex     bool          `json:"hex,omitempty"` // prefix and chunks are spelled in hexadecimal
+	Prefix string   `json:"prefix"`
+	Chunks []string `json:"chunks"`
+	Budget int      `json:"budget"`
+	Hex    bool     `json:"hex,omitempty"` // prefix and chunks are spelled in hexadecimal
+	// Rich: the underlying writer is not a bare io.Writer but also has WriteByte, WriteString and
+	// ReadFrom (as *bufio.Writer and *bytes.Buffer have), all under the same byte budget
+	Rich    bool          `json:"rich_underlying_writer,omitempty"`
 	Nested  *NestedInput  `json:"nested,omitempty"`
 	Writers *WritersInput `json:"live_writers,omitempty"`
 }
@@ -80,6 +84,20 @@ func (l *lim) Write(b []byte) (int, error) {
 	return n, errors.New("short write")
 }
 
+// limRich is lim with the further methods common destinations have.
+type limRich struct{ *lim }
+
+func (l limRich) WriteByte(b byte) error {
+	_, err := l.lim.Write([]byte{b})
+	return err
+}
+func (l limRich) WriteString(s string) (int, error) { return l.lim.Write([]byte(s)) }
+func (l limRich) ReadFrom(r io.Reader) (int64, error) {
+	b, _ := io.ReadAll(r)
+	n, err := l.lim.Write(b)
+	return int64(n), err
+}
+
 // ref renders text with prefix at the start of every line; srcIdx[i] is the index in text of output
 // byte i, or -1 for a prefix byte.
 func ref(prefix, text string) (out []byte, srcIdx []int) {
@@ -128,6 +146,9 @@ func check(in Input) (ok bool, v verdict) {
 	var res *verdict
 	pan, ptext = core.Guard(func() {
 		w = indent.NewWriter(u, in.Prefix)
+		if in.Rich {
+			w = indent.NewWriter(limRich{u}, in.Prefix)
+		}
 		for ci, c := range in.Chunks {
 			before := len(u.got)
 			v.writes++
@@ -196,6 +217,8 @@ func check(in Input) (ok bool, v verdict) {
 	}
 	return true, v
 }
+
+func rv0(in Input) int { return len(in.Chunks) }
 
 func checkOneShot(prefix, text string) (bool, verdict) {
 	want, _ := ref(prefix, text)
@@ -334,7 +357,7 @@ func textsOver(alpha []byte, n int, lead string, f func(string)) {
 func run(c *core.Ctx) {
 	var pi, n, k int
 	short := false
-	c.Res.Bound = fmt.Sprintf("text length <= %d over {a,b,\\n}; %d prefixes; all compositions; every stop point; <=1 empty write; texts of <= "+fmt.Sprint(uMaxLen(c.Tier))+" bytes over {C3, A9, FF, a, \\n} (chunk boundaries and stop points inside a two-byte character, invalid bytes) with 3 prefixes, one of them a partial character; nested writers: %d x %d prefixes, every sequence of <= %d writes of %d chunks to the inner or the outer writer, every stop point; 1..40 writers alive at once with distinct or equal prefixes of 1..33 bytes, written to in turn; every length 1..700 in one Write (at a line start, with and without a final line break, after a complete line; 3 prefixes); large writes: texts of 4096, 4097, 8192, 8193 (thorough also 4095, 8191, 12289) bytes (around the block sizes 4096 and 8192) with line breaks never, always, every 7th and every 4096th byte, in one call and split at byte 4096, 2 prefixes, every stop point (every third beyond 9000 output bytes, all next to a multiple of 4096)", maxLen(c.Tier), len(prefixes), len(nestPrefixes), len(nestPrefixes), nestedDepth(c.Tier), len(nestChunks))
+	c.Res.Bound = fmt.Sprintf("text length <= %d over {a,b,\\n}; %d prefixes; all compositions; every stop point; <=1 empty write; texts of <= 5 bytes also into a destination that has WriteByte, WriteString and ReadFrom besides Write; texts of <= "+fmt.Sprint(uMaxLen(c.Tier))+" bytes over {C3, A9, FF, a, \\n} (chunk boundaries and stop points inside a two-byte character, invalid bytes) with 3 prefixes, one of them a partial character; nested writers: %d x %d prefixes, every sequence of <= %d writes of %d chunks to the inner or the outer writer, every stop point; 1..40 writers alive at once with distinct or equal prefixes of 1..33 bytes, written to in turn; every length 1..700 in one Write (at a line start, with and without a final line break, after a complete line; 3 prefixes); large writes: texts of 4096, 4097, 8192, 8193 (thorough also 4095, 8191, 12289) bytes (around the block sizes 4096 and 8192) with line breaks never, always, every 7th and every 4096th byte, in one call and split at byte 4096, 2 prefixes, every stop point (every third beyond 9000 output bytes, all next to a multiple of 4096)", maxLen(c.Tier), len(prefixes), len(nestPrefixes), len(nestPrefixes), nestedDepth(c.Tier), len(nestChunks))
 	var oi, ii int
 	if c.Shard == "writers" {
 		runWriters(c)
@@ -416,6 +439,19 @@ func run(c *core.Ctx) {
 						continue // same as no fault
 					}
 					in := mkInput(bytesShard, prefix, ch, budget)
+					if n <= 5 && budget >= 0 {
+						// short texts also into a destination with more than Write
+						rin := in
+						rin.Rich = true
+						if rok, rv := check(rin); !rok {
+							c.Outcome("FAIL:" + rv.fingerprint)
+							c.Fail(caseNo, rv.classes, rv.fingerprint+":rich-destination", rin, rv.expected, rv.observed)
+						}
+						c.Exec()
+						c.Validate()
+						c.Edge(int64(rv0(rin)))
+						c.StateN(1)
+					}
 					ok, v := check(in)
 					c.Exec()
 					c.Validate()
